@@ -38,7 +38,8 @@ def _default(n):
 
 def cells(tier):
     out = []
-    for channel in ("register", "session", "run_step", "rest_run", "rest_session"):
+    # rest_rerun: the scenario was already run on that server before the /run request that carries the settings
+    for channel in ("register", "session", "run_step", "rest_run", "rest_session", "rest_rerun"):
         for kind in ("constant", "points"):
             levels = ("base", "scenario", "both") if channel == "register" else ("scenario", "both")
             for level in levels:
@@ -50,7 +51,7 @@ def cells(tier):
         out.append((channel, "none", "none"))           # a scenario without overrides reproduces the model
         out.append((channel, "constant-zero", "both"))  # an override whose value is falsy (0.0) must still win over the base value
     if tier == "thorough":
-        for channel in ("register", "session", "rest_run"):
+        for channel in ("register", "session", "rest_run", "rest_rerun"):
             out.append((channel, "constant+points", "both"))
             out.append((channel, "constant+dt", "scenario"))
             out.append((channel, "points+starttime", "scenario"))
@@ -149,8 +150,10 @@ def run_cell(cell, mode, env=None):
             return b
         app = BptkServer(__name__, fac2)
         c = app.test_client()
-        if channel == "rest_run":
+        if channel in ("rest_run", "rest_rerun"):
             body = {"scenario_managers": ["sm"], "scenarios": ["A"], "equations": scen.EQS}
+            if channel == "rest_rerun":
+                c.post("/run", data=json.dumps(body), content_type="application/json")
             if later:
                 body["settings"] = {"sm": {"A": later}}
             r = c.post("/run", data=json.dumps(body), content_type="application/json")
